@@ -1108,3 +1108,97 @@ package tchannel
 //@   label dispatched-without-error-frame
 //@   ensures !release ==> errAttempts(c) == old(errAttempts(c))
 //@   property C07 C20
+
+// ===========================================================================
+// relay_messages.go -- lazy parsers used by the relay (C03, C08, C14)
+// ===========================================================================
+
+//@ func finishesCall(f *Frame) (done bool)
+//@   requires FrameFull(f)
+//@   ensures f.Header.messageType == messageTypeError || f.Header.messageType == messageTypeCancel ==> done
+//@   ensures f.Header.messageType == messageTypeCallRes || f.Header.messageType == messageTypeCallResContinue ==> (done <==> u8at(f.Payload, 0) % 2 == 0)
+//@   ensures f.Header.messageType != messageTypeError && f.Header.messageType != messageTypeCancel && f.Header.messageType != messageTypeCallRes && f.Header.messageType != messageTypeCallResContinue ==> !done
+//@   property C03 C08 C10
+
+//@ func isCallResOK(f *Frame) (ok bool)
+//@   requires FrameFull(f)
+//@   ensures ok <==> u8at(f.Payload, 1) == 0
+//@   property C03 C08
+
+//@ func hasMoreFragments(f *Frame) (more bool)
+//@   requires FrameFull(f)
+//@   ensures more <==> u8at(f.Payload, 0) % 2 == 1
+//@   property C03 C08
+
+// LCR: what every accessor of a successfully parsed lazy call req relies on.
+//@ pred LCR(cr *lazyCallReq) := cr != nil && cr.Frame != nil && FrameFull(cr.Frame) && cr.Frame.Header.size >= 16 &&
+//@        cr.arg2StartOffset <= cr.arg2EndOffset && cr.arg2EndOffset <= cr.Frame.Header.size - 16 &&
+//@        (!cr.isArg2Fragmented ==> cr.arg3StartOffset <= cr.Frame.Header.size - 16) &&
+//@        31 + u8at(cr.Frame.Payload, 30) <= cr.Frame.Header.size - 16 && cr.checksumType < 4
+
+// newLazyCallReq: total on arbitrary payload bytes; on success every offset it
+// records lies inside the declared payload (no 16-bit wrap in start+len).
+//@ func newLazyCallReq(f *Frame) (cr *lazyCallReq, err error)
+//@   requires FrameFull(f) && f.Header.size >= 16 && f.Header.messageType == messageTypeCallReq
+//@   modifies nothing
+//@   label offsets-inside-declared-payload
+//@   ensures err == nil ==> fresh(cr) && LCR(cr) && cr.Frame == f
+//@   ensures err != nil ==> cr == nil
+//@   loop 0 invariant rbuf != nil && cr != nil && cr.Frame == f && typed.Suffix(rbuf.remaining, f.Payload[:f.Header.size - 16]) && rbuf.initialLength == f.Header.size - 16
+//@   loop 0 invariant rbuf.err == nil ==> len(rbuf.remaining) + 31 + u8at(f.Payload, 30) + 1 <= f.Header.size - 16
+//@   loop 0 invariant rbuf.err == nil || rbuf.err == typed.ErrEOF
+//@   property C03 C08
+
+//@ func (f *lazyCallReq) Service() (s []byte)
+//@   requires LCR(f)
+//@   ensures s == f.Frame.Payload[31:31+u8at(f.Frame.Payload, 30)]
+//@   property C03 C08
+
+// TTL / SetTTL: the 4 bytes at payload[1:5], big-endian milliseconds.
+//@ func (f *lazyCallReq) TTL() (d time.Duration)
+//@   requires LCR(f)
+//@   ensures d == be32(f.Frame.Payload, 1) * 1000000
+//@   property C03 C08 C14
+
+//@ func (f *lazyCallReq) SetTTL(d time.Duration)
+//@   requires LCR(f)
+//@   modifies elems(f.Frame.Payload[1:5])
+//@   label only-the-ttl-bytes-change
+//@   ensures 0 <= d && d / 1000000 <= 4294967295 ==> be32(f.Frame.Payload, 1) == d / 1000000
+//@   property C08 C14
+
+//@ func (f *lazyCallReq) HasMoreFragments() (more bool)
+//@   requires f.Frame != nil && FrameFull(f.Frame)
+//@   ensures more <==> u8at(f.Frame.Payload, 0) % 2 == 1
+//@   property C03 C08
+
+//@ func (f *lazyCallReq) arg2() (b []byte)
+//@   requires LCR(f)
+//@   ensures b == f.Frame.Payload[f.arg2StartOffset:f.arg2EndOffset]
+//@   property C03 C08
+
+//@ func (f *lazyCallReq) arg3() (b []byte)
+//@   requires LCR(f) && !f.isArg2Fragmented
+//@   ensures b == f.Frame.Payload[:f.Frame.Header.size - 16][f.arg3StartOffset:]
+//@   property C03 C08
+
+//@ func (f *lazyCallReq) Arg2Iterator() (it arg2.KeyValIterator, err error)
+//@   requires LCR(f)
+//@   property C03 C08 C18
+
+// newLazyCallRes / newLazyError: total on arbitrary bytes.
+//@ func newLazyCallRes(f *Frame) (cr lazyCallRes, err error)
+//@   requires FrameFull(f) && f.Header.size >= 16 && f.Header.messageType == messageTypeCallRes
+//@   modifies nothing
+//@   loop 0 invariant rbuf != nil && typed.Suffix(rbuf.remaining, f.Payload[:f.Header.size - 16])
+//@   property C03 C08
+
+//@ func newLazyError(f *Frame) (e lazyError)
+//@   requires f.Header.messageType == messageTypeError
+//@   ensures e.Frame == f
+//@   property C03 C08 C20
+
+//@ func (e lazyError) Code() (c SystemErrCode)
+//@   requires FrameFull(e.Frame)
+//@   ensures c == u8at(e.Frame.Payload, 0)
+//@   property C03 C08 C20
